@@ -178,6 +178,9 @@ pub struct Cli {
     /// `--debug`: scrut writes log lines all the time
     #[serde(default)]
     pub debug: bool,
+    /// `-r diff` / `-r yaml` (only together with `pretty: true`, i.e. no report is parsed)
+    #[serde(default)]
+    pub renderer: Option<String>,
 }
 
 #[derive(Clone, Debug, PartialEq, Eq, Serialize, Deserialize)]
